@@ -12,7 +12,8 @@ RULE = ("one Hypothesis search per configuration: stabilizer (constructed member
         "complementations, local Cliffords, generator basis, signs, input format) x state (Clifford+T, rotation circuits with "
         "continuous angles, GHZ-/W-like templates; mixed states of 2..3 components by injection behind an empty preparation "
         "circuit); plus all stabilizer groups for n = 2, 3 and one constructed member of every (configuration, LC class) for n = 4..6 "
-        "with a drawn state each, so every table circuit serves as a readout circuit at least once; for the same subjects also a "
+        "with a drawn state each, so every table circuit serves as a readout circuit at least once; named textbook stabilizers (graph "
+        "states of named graphs with the same single-qubit Clifford on every qubit); for the same subjects also a "
         "preparation circuit that ENDS with the first 1..5 gates of the readout circuit undone in reverse order (exactly, with one CX "
         "written control<->target, or with one gate repeated) -- the junction where gate cancellation would act. The returned measurement circuit is dense-"
         "simulated, its exact outcome distribution handed to StabilizerMeasurementFitter via a duck-typed result. A case is one "
@@ -215,6 +216,36 @@ def shard(arg):
                     rep.fail(key, case, msg, **extra)
                 if n <= 5 or fw.h64("c12j", seed, n, name, case["strings"]) % 2 == 0:
                     run_junction(rep, n, name, gens, rng)
+    elif kind == "named":
+        # named textbook states in uniform local frames (ring, line, star, complete graph ... + the same Clifford on every qubit) measured
+        # on a drawn generic state: frames hsh / sh / hs always, the others by hash
+        _, n, part, parts, seed, quick = arg
+        import math
+        from gen import named
+        for i, (label, gid, w, gens, circ) in enumerate(named.named_subjects(n)):
+            if i % parts != part:
+                continue
+            frame = label.split("+")[1]
+            if quick and not (frame[:3] in ("hsh", "sh", "hs") or fw.h64("c12n", seed, n, label) % 4 == 0):
+                continue
+            rng = fw.rng_for("c12n", seed, n, label)
+            gens = members.apply_signs(gens, rng.randrange(1 << n))
+            ops = []
+            for q in range(n):
+                ops.append(["ry", [q], [rng.uniform(0, 2 * math.pi)]])
+                ops.append(["rz", [q], [rng.uniform(0, 2 * math.pi)]])
+            for q in range(n - 1):
+                ops.append(["cx", [q, q + 1]])
+                ops.append(["ry", [q + 1], [rng.uniform(0, 2 * math.pi)]])
+            for name in sweep.configs(n):
+                case = {"n": n, "connectivity": name, "strings": sweep.strings(gens, n), "format": "strings+sign",
+                        "components": [{"w": [1, 1], "ops": ops}], "zero_seed": rng.randrange(10 ** 6)}
+                fails, info = check_measure(case)
+                rep.case((n, name, tuple(case["strings"]), repr(ops)) if info["non_eigen"] else None, None)
+                rep.count("config", f"{n}-{name}")
+                rep.count("state_kind", "pure(named stabilizer in a uniform frame)")
+                for key, msg, extra in fails:
+                    rep.fail(key, case, msg + f" [named stabilizer {label}]", **extra)
     else:
         # every group for n = 2, 3 x every configuration, with a drawn sign vector and a drawn rotation state
         _, n, shard_list, seed = arg
@@ -256,7 +287,11 @@ def run(ctx):
     for n in (4, 5, 6):
         for chunk in fw.split(members.orbit_reps(n), {4: 1, 5: 6, 6: 64}[n]):
             args.append(("classes", n, chunk, 1 if q else 8, ctx.seed, ctx.deadline))
-    args.sort(key=lambda a: 0 if (a[0] == "classes" and a[1] == 6) else 1)
+    for n in range(2, 7):
+        parts = {2: 1, 3: 1, 4: 1, 5: 2, 6: 8}[n]
+        for part in range(parts):
+            args.append(("named", n, part, parts, ctx.seed, q))
+    args.sort(key=lambda a: 0 if (a[0] in ("classes", "named") and a[1] == 6) else 1)
     rep = fw.run_shards(ctx, "props.c12", "shard", args)
     rep.extra["exhaustive"] = False
     rep.extra["exhaustive_part"] = "every stabilizer group for n=2,3 on every configuration and one member of every (configuration, class) for n=4..6 (one drawn sign vector and state each)"
